@@ -319,9 +319,20 @@ func (gr GithubReporter) listPRFiles(ctx context.Context) ([]*github.CommitFile,
 	defer cancel()
 
 	slog.Debug("Getting the list of modified files", slog.Int("pr", gr.prNum))
-	files, _, err := gr.client.PullRequests.ListFiles(reqCtx, gr.owner, gr.repo, gr.prNum, nil)
-	if err != nil {
-		return nil, fmt.Errorf("failed to list pull request files: %w", err)
+	// GitHub returns 30 files per page, get all pages or we won't be
+	// able to report problems for any file that's not on the first one.
+	var files []*github.CommitFile
+	var opt *github.ListOptions
+	for {
+		page, resp, err := gr.client.PullRequests.ListFiles(reqCtx, gr.owner, gr.repo, gr.prNum, opt)
+		if err != nil {
+			return nil, fmt.Errorf("failed to list pull request files: %w", err)
+		}
+		files = append(files, page...)
+		if resp == nil || resp.NextPage == 0 {
+			break
+		}
+		opt = &github.ListOptions{Page: resp.NextPage} // nolint: exhaustruct
 	}
 	return files, nil
 }
